@@ -10,6 +10,7 @@ ETS file read back are compared, inside Coq, with the spec list `accepted_from` 
 """
 import contextlib
 import io
+import logging
 import re
 import itertools
 import os
@@ -80,7 +81,13 @@ def _rows(case):
     """Effective input rows (meta, samples) after the optional sub-set selection."""
     sel = case.get('select')
     idx = list(range(len(case['samples']))) if sel is None else sel
-    return [(case['plaintext'][i] + case['key'][i], case['samples'][i]) for i in idx]
+    add = case.get('meta_mode') == 'add'
+    return [(case['plaintext'][i] + case['key'][i] + ([_shift_of(case['plaintext'][i])] if add else []), case['samples'][i]) for i in idx]
+
+
+def _shift_of(plaintext):
+    """Value of the metadata the scripted function attaches to the trace object (derived from the trace's own plaintext)."""
+    return (7 * int(plaintext[0]) + 3 * int(plaintext[1]) + 1) % 251
 
 
 def _pattern(case):
@@ -120,10 +127,12 @@ def _read_rows(ths):
     samples = np.asarray(ths.samples[:])
     pt = np.asarray(ths.plaintext)
     key = np.asarray(ths.key)
+    extra = np.asarray(ths.shift) if 'shift' in list(ths.metadatas.keys()) else None
     rows = []
     for j in range(n):
         s2 = _x2(samples[j])
-        rows.append({'meta': [int(v) for v in pt[j].reshape(-1)] + [int(v) for v in key[j].reshape(-1)], 'data2': s2})
+        rows.append({'meta': [int(v) for v in pt[j].reshape(-1)] + [int(v) for v in key[j].reshape(-1)]
+                     + ([int(v) for v in np.asarray(extra[j]).reshape(-1)] if extra is not None else []), 'data2': s2})
     return rows
 
 
@@ -266,7 +275,7 @@ def _in_samples(a, form):
 
 
 def make_case(rng, n, pattern, L=None, out_len=None, dtype=None, out_dtype=None, out_kind=None, select=None, full=None,
-              history=None, old=None, overwrite=None, kwargs=None, call=None, ret_form=None, in_form=None):
+              history=None, old=None, overwrite=None, kwargs=None, call=None, ret_form=None, in_form=None, meta_mode=None, log=None):
     """pattern is over the EFFECTIVE input (after select); full = number of traces of the underlying set.
     history: list of ('check', script, catch) | ('str',) | ('report',); script = what the function does at the calls of
     that check() (its length is nb_traces).  old: None or (n_old, L_old): the output file exists, written by a previous
@@ -307,6 +316,8 @@ def make_case(rng, n, pattern, L=None, out_len=None, dtype=None, out_dtype=None,
         case['kwargs'] = {'off2': 2 * rng.randint(-4, 4), 'tag': 'second'}
     case['ret_form'] = ret_form
     case['in_form'] = in_form
+    case['meta_mode'] = meta_mode or rng.choice(['none', 'none', 'add'])
+    case['logging'] = (rng.choice(LOGGING) if rng.random() < 0.3 else None) if log is None else (log or None)
     if ret_form == 'input_view':    # the function returns a view of the input trace's own samples: no offset, no longer than it
         case['offs2'] = [0] * total
         case['out_len'] = min(case['out_len'], L)
@@ -357,6 +368,19 @@ def _ths(samples, plaintext, key, dtype, in_form='native'):
                                       key=np.array(key, dtype='uint8').reshape(n, 2))
 
 
+class _ListHandler(logging.Handler):
+    def __init__(self):
+        super().__init__()
+        self.records = []
+
+    def emit(self, record):
+        self.records.append(record.getMessage())
+
+
+LOGGING = [['scared', 'INFO', 'null'], ['scared', 'DEBUG', 'list'], ['scared.synchronization', 'INFO', 'list'],
+           ['', 'INFO', 'none'], ['', 'DEBUG', 'null']]
+
+
 class SyncKind(Kind):
     name = 'synchronizer'
     header = HDR
@@ -367,7 +391,8 @@ class SyncKind(Kind):
     rule = ('scared.Synchronizer(read_ths_from_ram set or sub-set, ETS file name as str/Path, scripted function).run(): ALL 3^n '
             'accept/None/raise patterns for n <= 5 (quick) / 6 (thorough), failure runs >= 8 and >= 16 (warning path) at the start, '
             'middle and end, first/last rejected, all rejected, all accepted, empty input set, returned data shorter/equal/longer '
-            'than the trace, several exception classes, sub-sets with repeated traces, extra kwargs, the returned array in 12 memory '
+            'than the trace, several exception classes, sub-sets with repeated traces, extra kwargs, a metadata attached to the trace '
+            'object by the function (accepted and rejected traces), logging enabled at INFO/DEBUG on the scared / root logger, the returned array in 12 memory '
             'representations (big-endian int16/32/64 float32/64, strided, negative stride, read-only, one shared work buffer, zero-stride '
             'broadcast, 0-d, numpy scalar, (1,k), a view of the input samples) x input samples native / big-endian / strided / Fortran, '
             'the user callable drawn from 13 '
@@ -419,6 +444,13 @@ class SyncKind(Kind):
                 yield make_case(rng, 4, 'RAAA', L=3, out_len=2, dtype=dtype, ret_form='native', in_form=in_form)
                 yield make_case(rng, 4, 'AAAA', L=4, dtype=dtype, ret_form='big', in_form=in_form,
                                 history=[('check', 'AA', True)])
+        # metadata attached to the trace object by the user function (stored with the accepted trace it belongs to), and
+        # applications that have logging switched on
+        for pat in ('AAAA', 'RANAAR', 'NNAR', 'RRR'):
+            yield make_case(rng, len(pat), pat, meta_mode='add', log=False, call='plain')
+            yield make_case(rng, len(pat), pat, meta_mode='add', log=False, history=[('check', 'ARA', True), ('check', 'AR', False)])
+            for lg in LOGGING:
+                yield make_case(rng, len(pat), pat, log=lg)
         # --- random structure
         nrand = 90 if tier == 'quick' else 1500
         for _ in range(nrand):
@@ -446,6 +478,7 @@ class SyncKind(Kind):
         from estraces.formats.ets_writer import ETSWriterError
         ths = _ths(case['samples'], case['plaintext'], case['key'], case['dtype'], case.get('in_form', 'native'))
         ret_form = case.get('ret_form', 'native')
+        add_meta = case.get('meta_mode') == 'add'
         rstate = {}
         if case['select'] is not None:
             ths = ths[case['select']]
@@ -456,8 +489,12 @@ class SyncKind(Kind):
         def function(trace_object, **kw):
             i = len(seen)
             arr = np.asarray(trace_object.samples.array)
-            seen.append({'meta': [int(v) for v in trace_object.plaintext] + [int(v) for v in trace_object.key],
-                         'samples': [int(v) for v in arr], 'kw_ok': kw == expected_kw})
+            meta = [int(v) for v in trace_object.plaintext] + [int(v) for v in trace_object.key]
+            if add_meta:        # the library's "added attributes" feature: a new metadata attached to the trace object,
+                                # on accepted and rejected traces alike; recorded as it then sits on the object
+                trace_object.shift = np.array([_shift_of(trace_object.plaintext)], dtype='uint8')
+                meta += [int(v) for v in trace_object.metadatas['shift']]
+            seen.append({'meta': meta, 'samples': [int(v) for v in arr], 'kw_ok': kw == expected_kw})
             if i >= len(pattern):
                 raise RuntimeError('function called more often than scripted')
             p = pattern[i]
@@ -481,7 +518,16 @@ class SyncKind(Kind):
         reader = None
         sync = None
         rng_state = np.random.get_state()
+        log_cfg = case.get('logging')
+        log_restore = None
         try:
+            if log_cfg:         # the application has logging switched on: [logger name, level, handler]
+                lg = logging.getLogger(log_cfg[0])
+                handler = None if log_cfg[2] == 'none' else (logging.NullHandler() if log_cfg[2] == 'null' else _ListHandler())
+                log_restore = (lg, lg.level, handler)
+                lg.setLevel(getattr(logging, log_cfg[1]))
+                if handler is not None:
+                    lg.addHandler(handler)
             with warnings.catch_warnings(record=True) as wlist:
                 warnings.simplefilter('always')
                 # ---- an output file left by a previous Synchronizer run (another campaign)
@@ -580,6 +626,10 @@ class SyncKind(Kind):
                 obs['rows_disk'] = None
         finally:
             np.random.set_state(rng_state)
+            if log_restore is not None:
+                log_restore[0].setLevel(log_restore[1])
+                if log_restore[2] is not None:
+                    log_restore[0].removeHandler(log_restore[2])
             try:
                 if reader is not None:
                     reader.close()
@@ -691,13 +741,14 @@ class SyncKind(Kind):
                             'equal' if case['out_len'] == len((case['samples'] or [[0] * 3])[0]) else 'longer',
                 'subset': case['select'] is not None, 'kwargs': case.get('kwargs') is not None,
                 'callable': case.get('callable', 'plain'), 'ret_form': case.get('ret_form', 'native'),
-                'in_form': case.get('in_form', 'native'), 'out_dtype': case['out_dtype']}
+                'in_form': case.get('in_form', 'native'), 'out_dtype': case['out_dtype'],
+                'meta_mode': case.get('meta_mode', 'none'), 'logging': '/'.join(case['logging']) if case.get('logging') else 'off'}
 
     def tags(self, case, obs):
         return ['synchronizer']
 
     def sample(self, case, obs):
-        c = {k: case.get(k) for k in ('pattern', 'out_len', 'out_kind', 'dtype', 'out_dtype', 'select', 'history', 'segments', 'overwrite', 'kwargs', 'callable', 'ret_form', 'in_form')}
+        c = {k: case.get(k) for k in ('pattern', 'out_len', 'out_kind', 'dtype', 'out_dtype', 'select', 'history', 'segments', 'overwrite', 'kwargs', 'callable', 'ret_form', 'in_form', 'meta_mode', 'logging')}
         c['old_rows'] = None if case.get('old') is None else len(case['old']['samples'])
         o = {k: obs.get(k) for k in ('processed', 'synchronized', 'second', 'run', 'warnings', 'report', 'history')}
         if obs.get('rows'):
@@ -713,6 +764,14 @@ class SyncKind(Kind):
         if case.get('in_form', 'native') != 'native':
             c = dict(case)
             c['in_form'] = 'native'
+            yield c
+        if case.get('logging'):
+            c = dict(case)
+            c['logging'] = None
+            yield c
+        if case.get('meta_mode') == 'add':
+            c = dict(case)
+            c['meta_mode'] = 'none'
             yield c
         if case.get('ret_form', 'native') not in ('native', 'input_view'):
             c = dict(case)
